@@ -786,7 +786,14 @@ pub fn rln_witness_to_bigint_json(rln_witness: &RLNWitnessInput) -> Result<serde
 }
 
 pub fn message_id_range_check(message_id: &Fr, user_message_limit: &Fr) -> Result<()> {
-    if message_id > user_message_limit {
+    // Mirrors the circuit's RangeCheck(16): message_id fits in 16 bits and message_id < user_message_limit,
+    // where the comparison gadget itself only works while user_message_limit <= message_id + 2^16.
+    // Anything else cannot be proven (the prover would return a proof that fails verification).
+    let bound = Fr::from(1u64 << 16);
+    if message_id >= &bound
+        || message_id >= user_message_limit
+        || *user_message_limit > *message_id + bound
+    {
         return Err(color_eyre::Report::msg(
             "message_id is not within user_message_limit",
         ));
